@@ -22,6 +22,7 @@ type PropConfig struct {
 	Lemmas      []string `json:"lemmas"`
 	Assumptions []string `json:"assumptions"`
 	Bounded     []BoundedCheck `json:"bounded"`
+	Harness     []Harness `json:"harness"`
 	TopLevel    []string `json:"top_level"` // functions whose disappearance makes the property undecidable
 }
 
